@@ -32,7 +32,7 @@ Definition emb (r : Frame.res bytes) : PyLite.res (pv * pv) :=
 Definition emb_f (self : pv) (r : Frame.res bytes) : PyLite.res (pv * option pv) :=
   match r with
   | Frame.Ok x => PyLite.Ok (PBytes x, Some self)
-  | Frame.Raise w => Exc w
+  | Frame.Raise w => ExcS w (self_st self)
   | Frame.Err _ => Unsupported ""
   end.
 
@@ -132,17 +132,20 @@ Proof. pystart. pyrun. Qed.
 
 Lemma frame_set_single_func n idn fid d chan :
   call_func program (S (S n)) Parser__frame_set_single [pa; PEnum "EParseId" idn fid true; PBytes d; PInt chan] [] =
-  if zlen d =? 1 then emb_f pa (Request.frame_set fid (Request.set_flag "SINGLE") chan d) else Exc "AssertionError".
+  if zlen d =? 1 then emb_f pa (Request.frame_set fid (Request.set_flag "SINGLE") chan d)
+  else ExcS "AssertionError" (self_st pa).
 Proof. pystart. unfold Request.frame_set. pyrun. Qed.
 
 Lemma frame_set_all_func n idn fid d :
   call_func program (S (S n)) Parser__frame_set_all [pa; PEnum "EParseId" idn fid true; PBytes d] [] =
-  if zlen d =? 1 then emb_f pa (Request.frame_set fid (Request.set_flag "ALL") 0 d) else Exc "AssertionError".
+  if zlen d =? 1 then emb_f pa (Request.frame_set fid (Request.set_flag "ALL") 0 d)
+  else ExcS "AssertionError" (self_st pa).
 Proof. pystart. unfold Request.frame_set. pyrun. Qed.
 
 Lemma frame_set_bulk_func n idn fid d :
   call_func program (S (S n)) Parser__frame_set_bulk [pa; PEnum "EParseId" idn fid true; PBytes d] [] =
-  if zlen d =? 0 then Exc "AssertionError" else emb_f pa (Request.frame_set fid (Request.set_flag "BULK") 0 d).
+  if zlen d =? 0 then ExcS "AssertionError" (self_st pa)
+  else emb_f pa (Request.frame_set fid (Request.set_flag "BULK") 0 d).
 Proof. pystart. unfold Request.frame_set. pyrun. Qed.
 #[local] Hint Resolve frame_set_single_func frame_set_all_func frame_set_bulk_func : pyspec.
 #[local] Arguments Request.frame_set : simpl never.
@@ -164,7 +167,9 @@ Proof. pystart. unfold Request.frame_div. pyrun. Qed.
 
 (** bring a loop [for x in range(n)] that accumulates into a [bytes] local
     (initially [b""]) into the form of [for_loop_fold_res], with the loop
-    state (accumulator, loop variable) and the model step function [step];
+    state (accumulator, loop variable) and the model step function [step ef]
+    ([ef]: the embedding of the loop state into environments, which [step]
+    needs to say in which environment an iteration raises);
     independent of the names and of the order of the locals *)
 Ltac head_c t := lazymatch t with ?f _ => head_c f | _ => t end.
 Ltac py_range_bytes_loop step :=
@@ -178,18 +183,19 @@ Ltac py_range_bytes_loop step :=
                  ++ match snd a with Some v => [(x, v)] | None => [] end)%list);
           change (for_loop P cf lf (TName x) b (range_list 0 n) e)
             with (for_loop P cf lf (TName x) b (map rng (seq 0 (Z.to_nat (n - 0)))) (ef (@pair bytes (option pv) [] None)));
-          rewrite (for_loop_fold_res ef rng step P cf lf (TName x) b);
+          rewrite (for_loop_fold_res ef rng (step ef) P cf lf (TName x) b);
           [ rewrite Z.sub_0_r | intros [? [?|]] ?; let h := head_c step in unfold h ];
           subst ef; cbn [fst snd app]
       end
   end.
 
-(** the loop as a whole: [lem : forall n s d o, exists o', fold_res step (seq s n) (d, o) = ...] *)
+(** the loop as a whole:
+    [lem : forall ef n s d o, exists o' d', fold_res (step ef) (seq s n) (d, o) = ...] *)
 Ltac py_fold_res_spec lem :=
   lazymatch goal with
-  | |- context [fold_res _ (seq ?s ?n) (?d, ?o)] =>
+  | |- context [fold_res (_ ?ef) (seq ?s ?n) (?d, ?o)] =>
       let H := fresh "Hfold" in
-      destruct (lem n s d o) as [[?|] H]; cbn [skipn] in H; rewrite H; clear H
+      destruct (lem ef n s d o) as ([?|] & ? & H); cbn [skipn] in H; rewrite H; clear H
   end.
 
 Lemma frame_enable_vec_func n l chmax :
